@@ -5,6 +5,7 @@ import (
 	"fmt"
 	"testing"
 
+	cose "github.com/veraison/go-cose"
 	"pgregory.net/rapid"
 
 	"verifharness/gen"
@@ -20,7 +21,10 @@ type c09Case struct {
 	Wire    rc.Hex       `json:"wire"`
 	HasSpec bool         `json:"has_spec"`
 	Spec    gen.MsgSpec  `json:"spec"` // keys etc. when the wire was reference-built (HasSpec)
-	Ops     []string     `json:"ops"`  // cycle, discard, verify
+	Ops     []string     `json:"ops"`  // cycle, discard, verify, verify-envelope
+	// EnvKey: the wire is a hash envelope signed with this key; "verify-envelope" obtains the
+	// decoded message from VerifyHashEnvelope instead of UnmarshalCBOR
+	EnvKey *refcose.KeyMat `json:"env_key,omitempty"`
 }
 
 // predictReencode computes, from the input bytes alone, what decoding and
@@ -114,6 +118,7 @@ func checkC09(c c09Case) error {
 	}
 	discarded := false
 	cycles := 0
+	envAccepted := false
 	for i, op := range c.Ops {
 		switch op {
 		case "cycle":
@@ -136,6 +141,38 @@ func checkC09(c c09Case) error {
 			}
 			cur = got
 			cycles++
+		case "verify-envelope":
+			if c.EnvKey == nil || discarded {
+				continue
+			}
+			ver, err := libVerifier(*c.EnvKey, false)
+			if err != nil {
+				return err
+			}
+			msg, err := cose.VerifyHashEnvelope(ver, append([]byte{}, cur...))
+			if err != nil {
+				if !envAccepted {
+					// (the generated envelope need not be a conforming one: C12 owns that)
+					stats.Class("envelope-refused/" + shortErr(err))
+					continue
+				}
+				return finding("signature-lost", "step %d (after %d cycles): VerifyHashEnvelope no longer accepts the envelope: %v", i, cycles, err)
+			}
+			want, err := predictReencode(c.Kind, cur)
+			if err != nil {
+				return fmt.Errorf("harness: cannot predict: %v", err)
+			}
+			got, err := msg.MarshalCBOR()
+			if err != nil {
+				return finding("reencode-fails", "step %d: the message returned by VerifyHashEnvelope cannot be encoded: %v\nwire=%x", i, err, cur)
+			}
+			if !bytes.Equal(got, want) {
+				return finding("reencode-differs", "step %d: VerifyHashEnvelope + encode changed more than payload/signature length prefixes\n  in=%x\n got=%x\nwant=%x", i, cur, got, want)
+			}
+			cur = got
+			cycles++
+			envAccepted = true
+			stats.Class("cycle-through-VerifyHashEnvelope")
 		case "discard":
 			e1, derr, eerr := reencode(c.Kind, cur, true)
 			if derr != nil {
@@ -234,6 +271,18 @@ func genOps(t *rapid.T) []string {
 }
 
 func genC09Case(t *rapid.T) c09Case {
+	if rapid.IntRange(0, 7).Draw(t, "hash-envelope") == 0 {
+		e := genC12VerifyCase(t)
+		e.Edits, e.BadSig, e.Untag, e.Ext = nil, false, false, false
+		e.RevProt = rapid.Bool().Draw(t, "rev-prot")
+		ops := genOps(t)
+		for i := range ops {
+			if ops[i] == "verify" {
+				ops[i] = "verify-envelope"
+			}
+		}
+		return c09Case{Kind: refcose.KSign1, Wire: c12Envelope(&e), EnvKey: &e.Key, Ops: append([]string{"verify-envelope"}, ops...)}
+	}
 	if rapid.IntRange(0, 3).Draw(t, "from-mutant") == 0 {
 		m := genMutCase(t, false)
 		return c09Case{Kind: m.SeedKind, Wire: m.Wire, Ops: genOps(t)}
